@@ -592,6 +592,8 @@ FAILING_SENDER = '''statechart:
             action: "send('e2', v=x)\\nnotify('m0', w=x)"
           - event: e2
             action: y = y + 1
+          - event: f
+            action: "send('e2', v=7)\\nnotify('m1', w=1)\\nx = x // (1 - ((c >> 1) & 1))"
 '''
 
 CONTRACT_ONLY_READS = '''statechart:
@@ -709,6 +711,35 @@ DEEP_ENTRY_ORDER = '''statechart:
                 on entry: y = y * 5 + 3
 '''
 
+ACTION_TEXT_AS_GUARD = '''statechart:
+  name: the same code text first executed as an action and then evaluated as a guard (no contracts)
+  preamble: "x = 0\\ny = 0\\ng = 4095\\nc = 0\\ndef ok():\\n    return True"
+  root state:
+    name: root
+    initial: a
+    states:
+      - name: a
+        on entry: ok()
+        transitions:
+          - target: b
+            event: e1
+            guard: ok()
+          - target: b
+            event: e0
+            guard: ok()
+          - target: c
+            event: e0
+            guard: x >= 0
+      - name: b
+        on exit: x >= 0
+        transitions:
+          - target: a
+            event: e1
+            guard: x >= 0
+            action: ok()
+      - name: c
+'''
+
 
 def deep_chain_yaml(depth=12):
     """root > line > {idle, s1 ... nested `depth` levels (level2..), H* deep history, h shallow history}; names like s1 / s10
@@ -787,7 +818,9 @@ def entries():
     out.append(('failing_sender', FAILING_SENDER, None,
                 [('carry_on',), ('exec',), q('e1'), ('exec',), ('exec',), ('cbits', 1), q('e0'), ('exec',), ('cbits', 0), ('swap', 0), ('swap', 1),
                  ('swap', 2), q('e1'), ('exec',), ('exec',), ('exec',), ('cbits', 1), q('e0'), ('exec',), ('cbits', 0), ('swap', 3), ('exec',),
-                 q('e1'), ('exec',), ('exec',), ('exec',)]))
+                 q('e1'), ('exec',), ('exec',), ('exec',),
+                 # a block that sends and then raises; the client carries on: nothing of the failed block may surface later
+                 ('cbits', 2), q('f'), ('exec',), ('cbits', 0), q('e0'), ('exec',), ('exec',), q('f'), ('exec',), ('exec',), ('exec',)]))
 
     out.append(('contract_only_reads', CONTRACT_ONLY_READS, None,
                 [('exec',), q('e0'), ('exec',), q('e0'), ('exec',), q('e1'), ('exec',), q('e0'), ('exec',), q('e1'), ('exec',), ('exec',)]))
@@ -798,6 +831,9 @@ def entries():
 
     out.append(('deep_entry_order', DEEP_ENTRY_ORDER, None,
                 [('exec',), q('e0'), ('exec',), q('e2'), ('exec',), q('e1'), ('exec',), q('e2'), ('exec',), q('e0'), ('exec',), ('exec',)]))
+
+    out.append(('action_text_as_guard', ACTION_TEXT_AS_GUARD, None,
+                [('exec',), q('e1'), ('exec',), q('e1'), ('exec',), q('e1'), ('exec',), q('e1'), ('exec',), q('e0'), ('exec',), ('exec',)]))
 
     def add_noncontiguous(sc):
         from sismic.model import Transition
